@@ -2,7 +2,7 @@ SPEC = dict(
     props_file="Props/C26.v",
     level="proof",
     observers=[dict(cmd="obs_pubsub", imports=["Model.PsBase", "Model.PubSub"], case_type="PubSub.case", check="PubSub.check_case",
-                    n={"quick": 320, "thorough": 6000}, shard=20, timeout={"quick": 900, "thorough": 6000})],
+                    n={"quick": 200, "thorough": 6000}, shard=25, timeout={"quick": 900, "thorough": 6000})],
     search_factor=3,
     rule="generated operation sequences on one client against the fake server: 1-5 Receives (channels / patterns / shard channels "
          "with overlapping sets, with and without a cancellable context) plus three permanent ones on the marker channel, single "
